@@ -17,7 +17,7 @@ TITLE = ("Structural and linear-algebraic necessary conditions of 'decrypt inver
          "copy propagation); (R4) the Mantis mode switch writes exactly k0, k0prime, k1; (R5) every site that XORs the "
          "reflection constant into k1 applies the same eight bytes; (R6) for every SKINNY encrypt/decrypt pair (scalar and "
          "vector) in every configuration, GF(2) affine interpretation of one round: decrypt's linear layer composed with "
-         "encrypt's is the identity on all state bits including key and round-constant terms.")
+         "encrypt's is the identity on all state bits including key and round-constant terms. (R7) for every Mantis block function (scalar, tweaked, parallel vector, CTR batch) one backward round composed with one forward round restores the tweak and feeds exactly the forward S-box output into the S-box for every state bit.")
 
 
 def walk_start(prog, an, f):
@@ -292,6 +292,9 @@ def run(ctx, rep):
     for cfg in ctx.configs():
         nwalk, nstart, nsw, nmaps, npairs = run_config(ctx, rep, cfg)
         ninv = affine_rules.check_inverse(ctx, rep, cfg)
+        nman = affine_rules.check_mantis(ctx, rep, cfg)
+        if cfg is None:
+            rep.floor("C03.R7", "Mantis block functions whose forward and backward rounds were composed", nman, 2)
         if cfg is None:
             rep.floor("C03.R6", "encrypt/decrypt pairs whose linear layers were composed", ninv, 3)
             rep.analysed["affine_not_analysed"] = affine_rules.skipped(ctx, cfg)
